@@ -10,6 +10,7 @@ package rotemplate
 //@ func TextTemplate$1
 //@   props C18
 //@   binds v tpl template
+//@   calls Execute String
 //@   maypanic
 //@   track call.Template.Execute call.Buffer.String
 //@   ensures [executes-the-parsed-template-once-on-the-item-and-returns-the-text|C18] trace(call.Template.Execute(tpl, _, v), call.Buffer.String(_)) && result0 == res(call.Buffer.String) && result1 == res(call.Template.Execute)
@@ -17,6 +18,7 @@ package rotemplate
 //@ func HTMLTemplate$1
 //@   props C18
 //@   binds v tpl template
+//@   calls Execute String
 //@   maypanic
 //@   track call.Template.Execute call.Buffer.String
 //@   ensures [executes-the-parsed-template-once-on-the-item-and-returns-the-text|C18] trace(call.Template.Execute(tpl, _, v), call.Buffer.String(_)) && result0 == res(call.Buffer.String) && result1 == res(call.Template.Execute)
